@@ -138,7 +138,8 @@ def _case(draw):
         pins = draw(st.lists(st.integers(0, len(args) - 1), min_size=1, max_size=2, unique=True))
         if not steps:
             steps.append({'what': 'str', 'sig': draw(_sig(9))})
-    return {'kind': kind, 'sig': sig0, 'form': form, 'args': args, 'steps': steps, 'prio0': prio0, 'pins': pins, 'under_merge': under_merge}
+    return {'kind': kind, 'sig': sig0, 'form': form, 'args': args, 'steps': steps, 'prio0': prio0, 'pins': pins, 'under_merge': under_merge,
+            'rebind': draw(st.integers(0, 7)) == 0}
 
 
 def strategy():
@@ -260,7 +261,25 @@ def bind(target, args):
     return pos, {**by_name, **kws}
 
 
+def _rebound_name():
+    """The target is whatever its name denotes when the config is evaluated: the same document built twice, the name bound to
+    another function in between."""
+    text = '---\nf: !call:vfrec.rebound [1, 2]\ng: !bind:vfrec.rebound {k: 3}\n'
+    for n in (41, 42):
+        setattr(vfrec, 'rebound', getattr(vfrec, f'call_{n}'))
+        vfrec.reset()
+        status, got = O.try_call(O.build_config, [text])
+        if status != 'ok':
+            raise Violation(f'C13: build failed: {type(got).__name__}: {got}\nsources:\n{text}')
+        f, g = got['f'], got['g']
+        if O.to_builtin(f).get('called') != n or getattr(g, 'func', None) is not getattr(vfrec, f'call_{n}'):
+            raise Violation(f'C13: the name vfrec.rebound denotes vfrec.call_{n} now, but !call returned {O.to_builtin(f)!r} and !bind gave {g!r} '
+                            f'(the document was built before, when the name denoted another function)\nsources:\n{text}')
+
+
 def run_case(case):
+    if case.get('rebind'):
+        _rebound_name()
     ds = docs(case)
     texts = [tdoc.render(d) for d in ds]
     src = '\nsources:\n' + '\n'.join(texts)
